@@ -19,9 +19,10 @@ def affine(case):
             shapeA = (n,) if m == 'scalar' else ((m_, n) if k is None else (m_, k, n))
             A = rng.normal(size=shapeA); b = rng.normal(size=shapeA[:-1])
             f = lambda x: np.dot(A, x) + b
-            x = rng.normal(size=n) * 3
-            for method in sorted({case['method'], 'central', 'forward'}):
-                for klass in (['Jacobian'] + (['Gradient'] if m == 'scalar' else [])):
+            x_ = rng.normal(size=n) * 3
+            x_zero = x_.copy(); x_zero[0] = 0.0          # a coordinate exactly at the origin
+            for method, klass, x in itertools.product(sorted({case['method'], 'central', 'forward'}), ['Jacobian'] + (['Gradient'] if m == 'scalar' else []), (x_, x_zero)):
+                if True:
                     try:
                         J = getattr(nd, klass)(f, method=method, order=case.get('order', 2))(x)
                     except Exception as e:
@@ -34,7 +35,7 @@ def affine(case):
                     else:
                         want = A if k is None else np.transpose(A, (0, 2, 1))
                     if np.shape(J) != np.shape(want) or not np.allclose(J, want, rtol=1e-6, atol=1e-8):
-                        bad.append(dict(cls=klass, m=m, n=n, k=k, method=method, shape=np.shape(J), expected_shape=np.shape(want),
+                        bad.append(dict(cls=klass, m=m, n=n, k=k, method=method, x=x.tolist(), shape=np.shape(J), expected_shape=np.shape(want),
                                         got=np.asarray(J).ravel()[:4].tolist(), expected=np.asarray(want).ravel()[:4].tolist()))
         # a user-supplied step generator with another ratio, on a function with curvature: the rule must be built for the
         # ratio of the steps actually used
